@@ -1,15 +1,17 @@
+//! Checks on p2panda-stream: causal orderer (C11, C12) and processor streams (C13).
 use explorer::{Args, Report};
+
+mod c13;
 
 fn main() {
     let args = Args::parse();
     explorer::quiet_panics();
     let code = match args.property.as_str() {
-        // "Cxx" => cxx::run(Report::new(&args, "model_checking")),
+        "C13" => c13::run(Report::new(&args, "model_checking")),
         other => {
             eprintln!("vh-stream: unknown property {other}");
             2
         }
     };
-    let _ = Report::new(&args, "model_checking");
     std::process::exit(code);
 }
